@@ -164,10 +164,29 @@ def service_probe(sc, limit, ctx):
     sent = []
     # like a restarted client, the probe first reuses identifier pairs that earlier (lost) connections had in flight
     reuse = []
+    never_answered = []     # (hbh, e2e, origin host) of requests of earlier connections for which the node neither wrote nor accepted an answer
     for s_old in sc.socks[:c]:
+        answered_old = {f.h.ident() for f in s_old.out if not f.h.is_request}
         for f in s_old.inreq:
             if (f.h.hbh, f.h.e2e) not in reuse and f.h.code == 271:
                 reuse.append((f.h.hbh, f.h.e2e))
+                if f.h.ident() not in answered_old and (f.h.hbh, f.h.e2e) not in nw.answers_accepted and f.get(264):
+                    never_answered.append((f.h.hbh, f.h.e2e, f.get(264).decode()))
+    # as RFC 6733 5.5.4 prescribes after a failover, the client first re-sends what was never answered, with the T flag and the
+    # original identifiers and Origin-Host (the probe connection relays for that host): never answered means not a duplicate
+    for hbh, e2e, origin in never_answered[:2]:
+        b4 = len(nw.requests)
+        d = env.acr(host=origin, hbh=hbh, e2e=e2e, session="probe;retransmit", flags=0x80 | 0x40 | 0x10)
+        nw.deliver(s.fs, d)
+        sc.sync()
+        for _ in range(3):
+            sc.apply(("tick", 1))
+        got = [f.result_code for f in s.out if not f.h.is_request and f.h.code == 271 and (f.h.hbh, f.h.e2e) == (hbh, e2e)]
+        if len(nw.requests) == b4 or got != [2001]:
+            vs.append(("probe:retransmission-of-a-never-answered-request-not-served", f"T-flagged request {hbh:#x}/{e2e:#x} of {origin}: "
+                       f"delivered to a handler: {len(nw.requests) > b4}, answers {got}"))
+        before = len(nw.requests)
+    base_out = len(s.out)
     for k in range(n_req):
         hbh, e2e = reuse[k] if k < len(reuse) else (0x9000 + k, 0xa000 + k)
         d = env.acr(host="peer2.example.org", hbh=hbh, e2e=e2e, session=f"probe;{k}")
@@ -177,7 +196,7 @@ def service_probe(sc, limit, ctx):
     for _ in range(3):
         sc.apply(("tick", 1))
     delivered = [(m.header.hop_by_hop_identifier) for a, m in nw.requests[before:]]
-    answers = {(f.h.hbh, f.h.e2e): f.result_code for f in s.out if not f.h.is_request and f.h.code == 271}
+    answers = {(f.h.hbh, f.h.e2e): f.result_code for f in s.out[base_out:] if not f.h.is_request and f.h.code == 271}
     missing = [f for f in sent if f.h.hbh not in delivered]
     unanswered = [f for f in sent if answers.get((f.h.hbh, f.h.e2e)) != 2001]
     if missing:
